@@ -626,8 +626,18 @@ def _finite_wrapper(ctx, nid, _stack=()):
         kind, _d = _loop_driver(ctx, b, h, body)
         if kind != 'iterator':
             return False
-    # it must delegate to a std iterator at all
-    return bool(loops)
+    if loops:
+        return True
+    # loop-free wrapper: finite if it advances a finite std iterator
+    for bi, t in b.calls():
+        targets, ext, _ = ctx.prog.call_targets(b, t)
+        name = ext or ''
+        if name.endswith('::next') and t['args']:
+            al = op_local(t['args'][0])
+            tys = t.get('self_ty', {}).get('s', '') + ' ' + (b.local_ty(al)['s'] if al is not None else '')
+            if any(h in tys for h in FINITE_ITER_HINTS):
+                return True
+    return False
 
 
 def _must_pass(b, h, body, S):
